@@ -668,6 +668,9 @@ pub struct Exp {
     pub welcome: bool,
     /// registration must not complete: no 001 may appear
     pub no_welcome: bool,
+    /// after this step the actor's capability negotiation must be open (Some(true))
+    /// / closed (Some(false))
+    pub cap_open_after: Option<bool>,
 }
 
 // ---------------------------------------------------------------------------
@@ -1880,7 +1883,11 @@ fn step_unregistered(m: &M, cfg: &SpecCfg, actor: &Actor, verb: &str, p: &[Strin
             let sub = p.get(0).map(|s| s.to_ascii_uppercase()).unwrap_or_default();
             match sub.as_str() {
                 "LS" | "REQ" => {
+                    // any LS or REQ (also a refused one) opens the negotiation:
+                    // registration is suspended until CAP END
                     e.actor_unchecked = true;
+                    e.no_welcome = true;
+                    e.cap_open_after = Some(true);
                     return Some(e);
                 }
                 "LIST" => {
